@@ -95,7 +95,7 @@ func hwLoad() map[string]*packages.Package {
 		hwBase + "components/phttp/import",
 	}
 	cfg := &packages.Config{Mode: packages.NeedName | packages.NeedSyntax | packages.NeedTypes | packages.NeedTypesInfo |
-		packages.NeedFiles | packages.NeedImports | packages.NeedDeps, Dir: repo, BuildFlags: []string{"-tags=verif"}}
+		packages.NeedFiles | packages.NeedImports, Dir: repo, BuildFlags: []string{"-tags=verif"}}
 	pkgs, err := packages.Load(cfg, paths...)
 	if err != nil {
 		fmt.Fprintln(os.Stderr, "load:", err)
